@@ -70,6 +70,11 @@ CHECKS = {
             "DESIGN.md 6/C06, 2.4, 2.6",
             "For small containers of all four compressions and three packagings: every truncation length of every file, every byte position x masks, replacement by empty/random/text/'jbkC'-prefixed/another valid container, appended garbage and seeded range scripts are read by a child without catch_unwind in a debug-assertions+overflow-checks build and in a release build (open, dump everything, stream every content whole and in 7-byte reads, run all checks). A panic, abort, signal, a process blocked forever (all threads asleep, no cpu) or a decode loop that stops advancing is a violation; a plain timeout is inconclusive.",
             "Blocked/no-progress use the sound criteria of DESIGN 2.6 (the no-progress criterion needs the cfg(jubako_verif) dec.pre_publish hook). Adversarially re-checksummed files are outside the claim."),
+    "C09": ("E3-crash-points", "fault_enumeration",
+            "crash-point enumeration: LD_PRELOAD write-budget shim (kill / ENOSPC at every byte offset of the output stream), destination-state validity predicate + reference model",
+            "DESIGN.md 6/C09 and 4.2",
+            "BasicCreator runs in a child under a shim that lets exactly B bytes reach the files of the destination directory, then kills the process or fails every write with ENOSPC; B ranges over every byte offset of the write stream for tiny containers in the three packagings (stride + every write boundary for larger ones), with a fresh destination and with a previous complete container of other content in place. Afterwards the entry point must be absent (fresh only), byte-identical to the previous file, or a container that opens, verifies and equals the model of the new content; with B >= total creation must succeed.",
+            "Crash = process termination or write error (page cache survives; no power-loss claim). rename itself is not failed (invisible to the shim). The shim self-checks on a fault-free run (bytes seen >= final sizes, result equals the model) or the run is inconclusive."),
 }
 
 NOT_YET = {
